@@ -296,14 +296,6 @@ Proof.
   rewrite !body_of_stop by exact Ht. reflexivity.
 Qed.
 
-Lemma split_app_nl a b : split_byte (a ++ 10 :: b) 10 = split_byte a 10 ++ split_byte b 10.
-Proof.
-  induction a as [|x a IH]; cbn [app split_byte].
-  - destruct (split_byte b 10) as [|h t] eqn:E; [exfalso; exact (split_byte_nonempty _ _ E)|reflexivity].
-  - rewrite IH. destruct (split_byte a 10) as [|h t] eqn:E; [exfalso; exact (split_byte_nonempty _ _ E)|].
-    cbn [app]. destruct (x =? 10); reflexivity.
-Qed.
-
 (* head = the report up to the last line of the first running goroutine's
    stack; a blank line; then anything (the other goroutines) *)
 Lemma other_goroutines_irrelevant symb child head tail1 tail2 s after :
